@@ -80,6 +80,10 @@ CLAIMED["C13"] = dict(cat="fault_enumeration", ref="7 C13", note=CLI_NOTE + "; s
   text="a catalogue of content faults (generic truncation / garbage / duplication; playlist faults: huge or negative numbers, missing URIs, wrong playlist kind, bad byte ranges, unknown codecs, missing group; init faults: codecs without decoder as extra / leading / all tracks, time scale 0, extra / missing / duplicate / too many tracks; segment faults: no leading-track data, undeclared traf, empty trun, zero / huge durations, base times and offsets, other container, unsupported MPEG-TS codecs, missing PMT, 20 s jumps) is applied at every response position of six stream layouts (MPEG-TS, fMP4 with permuted tracks, renditions in both containers, Low-Latency), with and without a later Close; a crash of the process, no outcome within the budget while nothing is being paced, a leaked goroutine or a second value are violations, judged by TLC on the recorded runs (ClientRun.tla)",
   technique="model-driven fault enumeration on the real Client; TLA+ monitor (ClientRun.tla) checked by TLC on the recorded runs; process-level crash detection")
 
+CLAIMED["C09"] = dict(cat="model_checking", ref="7 C09", note="synthetic codecs with the unit identity in the payload (H264, VP9, AV1, AAC, Opus); muxer written in real time by one goroutine, client attached once three segments are listed plus a random delay; SegmentMinDuration >= 600 ms; Low-Latency runs use a wall clock linear in media time; one recorded finding (Low-Latency with TARGETDURATION 0) tolerated by signature",
+  text="a real Muxer (three variants x track sets x codecs, wall clocks that drift and jump against the media clock, timestamps from negative to past the 33-bit wrap) is written in real time while a real Client reads it through an in-process transport (multivariant or media playlist entry); ClientMux.tla keeps per muxer track the units written and delivered and TLC checks on the recorded run: track list equal to what the muxer advertised (codec, clock rate, codec parameters, rendition name / language / default), byte identity, written-before-delivered, once and in order, no gaps (MPEG-TS, fMP4), DTS / PTS within one tick of written minus origin, AbsoluteTime within a millisecond of the wall clock written with the first unit of the segment plus the DTS distance (segment structure read back from the muxer), the client keeps up until the writer stops",
+  technique="TLA+ monitor (ClientMux.tla) checked by TLC on traces recorded from a real Client reading a real Muxer; exact-arithmetic annotator")
+
 PENDING = "check not built yet in this session (planned, see DESIGN.md section 7); will be claimed once its TLA+ model and conformance harness are committed"
 
 
